@@ -384,6 +384,15 @@ impl Ctx {
                     log.log(TK::TimerStop { obj, lo, hi: detsim::run_clock_ns(), returned: r, rate: *rate });
                 }
             }
+            "timer_peek" => {
+                // closing by reference reads the timer without ending it: a running timer keeps running
+                let obj = ju(op, "obj", 0);
+                if let Some((t, rate)) = self.timers.get(&obj) {
+                    let lo = detsim::run_clock_ns();
+                    let r = (&*t).close();
+                    log.log(TK::TimerClose { obj, lo, hi: detsim::run_clock_ns(), reported: r.as_nanos() as u64, rate: *rate });
+                }
+            }
             "timer_close" => {
                 let obj = ju(op, "obj", 0);
                 if let Some((t, rate)) = self.timers.remove(&obj) {
@@ -699,7 +708,7 @@ impl Gen18 {
             9 => {
                 if !self.live_timers.is_empty() {
                     let obj = *rng.pick(&self.live_timers);
-                    ops.push(json!({"op":"timer_stop","obj":obj}));
+                    ops.push(json!({"op": if rng.chance(0.3) { "timer_peek" } else { "timer_stop" },"obj":obj}));
                 }
             }
             10 => {
@@ -1004,6 +1013,15 @@ fn fake_main(plan: &Value, out: Arc<Mutex<Vec<String>>>) {
                         }
                     }
                 }
+                "timer_peek" if sole => {
+                    if let Some((t, start, stopped)) = timers.get(&ju(op, "obj", 0)) {
+                        let r = (&*t).close().as_nanos() as u64;
+                        let want = stopped.unwrap_or(mono.load(Ordering::SeqCst) - *start);
+                        if r != want {
+                            bad(format!("timer_close_wrong: closing a timer by reference read {r} ns, the manually advanced clock says {want} ns (creation to first stop, or to now)"));
+                        }
+                    }
+                }
                 "timer_close" if sole => {
                     if let Some((t, start, stopped)) = timers.remove(&ju(op, "obj", 0)) {
                         let r = t.close().as_nanos() as u64;
@@ -1091,7 +1109,7 @@ impl Scenario for FakeClock {
                     live.push(next);
                     next += 1;
                 }
-                6 if !live.is_empty() => ops.push(json!({"op":"timer_stop","obj": *rng.pick(&live)})),
+                6 if !live.is_empty() => ops.push(json!({"op": if rng.chance(0.4) { "timer_peek" } else { "timer_stop" },"obj": *rng.pick(&live)})),
                 7 if !live.is_empty() => {
                     let i = rng.usize_below(live.len());
                     ops.push(json!({"op":"timer_close","obj": live.remove(i)}));
